@@ -72,7 +72,8 @@ func HashName(field string) string {
 func RemoveElementAfter(slice []string, marker string) []string {
 	for i, v := range slice {
 		if v == marker && i+1 < len(slice) {
-			return append(slice[:i+1], slice[i+2:]...)
+			// build a new slice: appending to slice[:i+1] would overwrite the caller's elements
+			return append(append([]string{}, slice[:i+1]...), slice[i+2:]...)
 		}
 	}
 	return slice
